@@ -83,6 +83,7 @@ def gen_plan(rng, index, tier):
             # fuel blocks with a pin lattice: components carry multi-index locations
             bp["pins"] = True
             bp["pinrings"] = rng.choice([2, 3])
+            bp["pinhole"] = rng.random() < 0.5
         cfg["blueprint"] = bp
         cfg["fuelHandler"] = True
         if bp["plate"]:
@@ -93,7 +94,7 @@ def gen_plan(rng, index, tier):
         st["forceDbParams"] = ["percentBuByPin"]  # a parameter made persistent by the user
     actors = []
     for k in range(rng.choice([1, 2, 3])):
-        actors.append({"name": f"sim{k}", "order": rng.choice([1.5, 2.5, 4.5, 6.5, 10.5]), "function": f"simf{k}", "kwargs": {"enabled": True, "bolForce": False, "reverseAtEOL": False}})
+        actors.append({"name": f"sim{k}", "order": rng.choice([1.5, 2.5, 4.5, 6.5, 10.5, 12.5]), "function": f"simf{k}", "kwargs": {"enabled": True, "bolForce": False, "reverseAtEOL": False}})
     cfg["actors"] = actors
     pts = c06._points(hist, False, 1)
     steps = []
@@ -105,6 +106,8 @@ def gen_plan(rng, index, tier):
         op = rng.choice(["setp", "setp", "setp", "ndens", "temp", "dim", "height", "rotate", "std", "convert"])
         if rng.random() < 0.04:
             op = "scopeassign"
+        elif a["order"] > 11.0 and pt[0] == "EveryNode" and rng.random() < 0.5:
+            op = "rewrite"  # behind the database interface: the node has just been written
         kw = {"idx": rng.randrange(1000), "u": uid}
         if op == "setp":
             kw["level"] = rng.choice(["reactor", "core", "assembly", "block", "component"])
@@ -134,6 +137,11 @@ def gen_plan(rng, index, tier):
         elif op == "std":
             kw["which"] = rng.choice(["power", "flux", "mgFlux", "keff", "notes", "buLimit", "pdens", "detailedNDens", "percentBuByPin"])
         steps.append(c06._mk_step(0, a["name"], pt, op, **kw))
+    if any(s_["op"] == "rewrite" for s_ in steps) and cfg.get("reactor") == "gen" and cfg["blueprint"].get("geom", "hex") != "cartesian":
+        # what a turned assembly changes in the stored layout is the place of its pins
+        cfg["blueprint"]["pins"] = True
+        cfg["blueprint"].setdefault("pinrings", 2)
+        cfg["blueprint"]["pinhole"] = True
     if cfg.get("fuelHandler"):
         st["trackAssems"] = rng.random() < 0.6
         for c in range(n):
@@ -373,7 +381,34 @@ def op_scopeassign(d, st, actor):
     d.dirty = True
 
 
-OPS = {"scopeassign": op_scopeassign, "convert": op_convert, "setp": op_setp, "ndens": op_ndens, "temp": op_temp, "dim": op_dim, "height": op_height, "rotate": op_rotate, "std": op_std}
+def op_rewrite(d, st, actor):
+    """The node has been written; an assembly is turned (the pins' places are part of the stored
+    layout) and the same node is written again.  A second write of a node is refused; if it is not,
+    what is stored must still be one state of the reactor (the reader compares it with the state
+    at the acknowledged write)."""
+    o = actor.o
+    dbi = o.getInterface("database")
+    db = dbi._db if dbi is not None else None
+    if db is None or not db.isOpen():
+        return
+    r = o.r
+    if f"c{int(r.p.cycle):02d}n{int(r.p.timeNode):02d}" not in db.h5db:
+        return
+    op_rotate(d, {"idx": st["idx"], "k": 1 + st["idx"] % 4}, actor)
+    op_temp(d, {"idx": st["idx"], "T": 431.0 + st["idx"] % 7}, actor)  # (temperatures are kept in the layout too)
+    refresh_derived(d, actor)
+    try:
+        db.writeToDB(r)
+    except Exception:  # noqa: BLE001 - the refusal
+        d.probes["second_write_of_a_node_refused"] += 1
+    else:
+        d.probes["second_write_of_a_node_accepted"] += 1
+    if not hasattr(d, "rewritten"):
+        d.rewritten = []
+    d.rewritten.append(f"c{int(r.p.cycle):02d}n{int(r.p.timeNode):02d}")
+
+
+OPS = {"rewrite": op_rewrite, "scopeassign": op_scopeassign, "convert": op_convert, "setp": op_setp, "ndens": op_ndens, "temp": op_temp, "dim": op_dim, "height": op_height, "rotate": op_rotate, "std": op_std}
 
 
 def refresh_derived(d, actor):
@@ -436,7 +471,9 @@ def execute(plan):
         rot = rd["pick"] % len(order)
         # prefer snapshots written after state changes
         cand = [nm for nm in order[rot:] + order[:rot] if writes[nm]["nops"] > 0] or order
-        chosen = cand[: rd["loads"]]
+        # (nodes somebody tried to write a second time are looked at first)
+        again = [nm for nm in getattr(d, "rewritten", []) if nm in writes]
+        chosen = (again[:1] + [nm for nm in cand if nm not in again[:1]])[: max(rd["loads"], 1)]
         compared = 0
         ctx = {"swaps": d.nswaps > 0, "stationary": bool(cfg["settings"].get("stationaryBlockFlags")), "geom": str(cfg.get("blueprint", {}).get("geom", "hex")) if cfg.get("reactor") == "gen" else "hex"}
         with Database(path, "r") as db:
